@@ -124,6 +124,13 @@ def make_world():
     w = World(catalogue=True)
     for ev in USER:
         w.must(ev)
+        # quantities and units are ordered while the type is still being
+        # built up: nothing learnt about it then may be kept for good
+        cls = w.types['NG']
+        us = [w.units[s] for s in w.tm['NG'].units]
+        for u1 in us:
+            for u2 in us:
+                cls(1, u1) < cls(2, u2), u1 <= u2, cls(1, u1) == cls(1, u2)
     return w
 
 
